@@ -169,6 +169,15 @@ Theorem C01_fixpoint : forall bs t, bytes_ok bs = true -> decode bs = Ok (t, [])
 Proof. exact fixpoint. Qed.
 Print Assumptions C01_fixpoint.
 
+(* the same on the two encode paths of the API: for an exact decoded tree Box.Encode (per-box FixedSliceWriter capacities,
+   sizes below 2^32) and Box.EncodeSW (one writer of Size() bytes) both SUCCEED with the same bytes, and they do so again on
+   the re-decoded tree: nothing in the model stands between raw_box and what the Go caller gets *)
+Theorem C01_fixpoint_api : forall bs t, bytes_ok bs = true -> decode bs = Ok (t, []) -> exact_box t = true ->
+  exists enc, encode_w t = Ok enc /\ encode_sw t = Ok enc /\ lenN enc = lenN bs /\
+    decode enc = Ok (norm_box t, []) /\ encode_w (norm_box t) = Ok enc /\ encode_sw (norm_box t) = Ok enc.
+Proof. exact fixpoint_api. Qed.
+Print Assumptions C01_fixpoint_api.
+
 (* the same for a file in box-tree mode: File.Encode's bytes decode to the normalised boxes and encode to themselves *)
 Theorem C01_file_boxtree : forall bs ts, bytes_ok bs = true -> decode_file bs = Ok ts -> forallb exact_box ts = true ->
   exists enc, encode_seq false ts = Ok enc /\ lenN enc = lenN bs /\ decode_file enc = Ok (map norm_box ts) /\
